@@ -419,3 +419,7 @@ mod tests {
         assert_eq!(it.next(), None);
     }
 }
+
+#[cfg(all(test, feature = "pendulum_project_ntpd_rs_verif"))]
+#[path = "../../../../verif/harness/statime_wire/common_tlv.rs"]
+mod verif_common_tlv;
